@@ -15,6 +15,7 @@ import TzVerif.Proofs.TzifReject
 import TzVerif.Proofs.TzifSound
 import TzVerif.Proofs.SrcEqTzString
 import TzVerif.Proofs.SrcEqTzFile
+import TzVerif.Proofs.SrcEqOwned
 import TzVerif.Generated.StableC08   -- per run: the current translation (SrcNow) equals the baseline (Src) these theorems are about
 
 namespace TzVerif.C08
@@ -164,5 +165,9 @@ theorem accepted_v1_is_written_src (b : Bytes) (hb : ∀ x ∈ b, x < 256) (z : 
     refusals, then the TZ-string parser) translated from the source equals the model's -/
 theorem translated_footer_is_the_model (f : Bytes) (ext : Bool) : Src.parse_footer f ext = parseFooter f ext :=
   SrcEq.parse_footer_eq f ext
+
+/-- the public entry point `TimeZone::from_tz_data` as the source has it is the decoder these theorems are about -/
+theorem from_tz_data_src (b : Bytes) : Src.TimeZone.from_tz_data b = parseTzFile b :=
+  SrcEq.tz_from_tz_data_eq b
 
 end TzVerif.C08
